@@ -144,7 +144,7 @@ func vxDrawEdit(t *rapid.T, s string) string {
 	}
 	switch rapid.IntRange(0, 3).Draw(t, "edit") {
 	case 0: // insert
-		c := rapid.SampledFrom(alphabet).Draw(t, "ins")
+		c := vxDrawC19Char(t, alphabet, "ins")
 		r = append(r[:pos:pos], append([]rune{c}, r[pos:]...)...)
 	case 1: // delete
 		if len(r) > 0 {
@@ -158,7 +158,7 @@ func vxDrawEdit(t *rapid.T, s string) string {
 			if pos == len(r) {
 				pos--
 			}
-			r[pos] = rapid.SampledFrom(alphabet).Draw(t, "rep")
+			r[pos] = vxDrawC19Char(t, alphabet, "rep")
 		}
 	default: // move a hyphen / swap neighbours
 		if len(r) > 1 {
@@ -171,10 +171,25 @@ func vxDrawEdit(t *rapid.T, s string) string {
 	return string(r)
 }
 
+// vxDrawC19Char: a character from the fixed alphabet, any ASCII byte (control characters included), or a
+// valid character with one bit flipped (what a case fold, a mask or an off-by-one range test lets through).
+func vxDrawC19Char(t *rapid.T, alphabet []rune, label string) rune {
+	switch rapid.IntRange(0, 2).Draw(t, label+"_kind") {
+	case 0:
+		return rapid.SampledFrom(alphabet).Draw(t, label)
+	case 1:
+		return rune(rapid.IntRange(0, 127).Draw(t, label+"_ascii"))
+	default:
+		valid := "0123456789abcdefABCDEF-"
+		c := valid[rapid.IntRange(0, len(valid)-1).Draw(t, label+"_base")]
+		return rune(c ^ (1 << uint(rapid.IntRange(0, 6).Draw(t, label+"_bit"))))
+	}
+}
+
 func TestVxC19Reject(t *testing.T) {
 	vx.Check(t, vx.Prop{
 		ID: "C19", Part: "TestVxC19Reject",
-		Rule: "strings = valid forms with 0..3 edits (insert/delete/replace/swap over hex, non-hex, hyphen, non-ASCII digits) or random; oracle one-directional: accepted => exactly 32 hex digits besides hyphens and value = those digits; non-trivial = 1..3 edits from a valid form",
+		Rule: "strings = valid forms with 0..3 edits (insert/delete/replace/swap; the new character is hex, non-hex, hyphen, a non-ASCII digit, any ASCII byte incl. control characters, or a valid character with one bit flipped) or random; oracle one-directional: accepted => exactly 32 hex digits besides hyphens and value = those digits; non-trivial = 1..3 edits from a valid form",
 		Draw: func(t *rapid.T) interface{} {
 			if rapid.IntRange(0, 9).Draw(t, "random") == 0 {
 				return &vxC19Str{S: rapid.String().Draw(t, "s"), Edits: -1}
